@@ -82,6 +82,8 @@ PROFILES = {
     "dedup": dict(BASE, ntasks=(3, 9), p_dedup=0.45, p_task=0.25, p_item=0.2, p_dirty=0.25, flush_modes=("ok", "ok", "itemerr")),
     "dedupdirty": dict(BASE, ntasks=(4, 9), nseg=(2, 4), p_dedup=0.6, p_task=0.2, p_item=0.15, p_dirty=0.45, ndfn=(1, 1), nkeys=1,
                        nkinds=(2, 2)),
+    "dedupself": dict(BASE, ntasks=(5, 10), nseg=(2, 4), p_dedup=0.6, p_task=0.25, p_item=0.15, p_dirty=0.15, ndfn=(1, 1), nkeys=1,
+                      nkinds=(1, 2), p_dself=0.6, dbinds=("fn", "inst1")),
     "dedupsync": dict(BASE, ntasks=(3, 9), p_dedup=0.4, p_task=0.25, p_item=0.2, p_dirty=0.25, p_sync=0.2),
     "overflowbatch": dict(BASE, ntasks=(4, 9), nleaf=(1, 3), p_task=0.45, p_item=0.45, p_sync=0.1, maxstack=(3, 6), ncalls=3,
                           nkinds=(2, 3), p_catch=0.3),
@@ -170,9 +172,19 @@ class Gen(object):
                 segs.append(seg([], term("yield", leaves[0] if n == 1 else S("Lst", 0, leaves))))
             segs.append(seg([], term("raise" if r.random() < 0.15 else "return")))
             self.dfn_bodies[g] = segs
-        return {"segs": json.loads(json.dumps(self.dfn_bodies[g])),
-                "dedup": {"fn": g, "key": r.randint(1, p["nkeys"]), "spell": r.randint(0, 3),
-                          "bind": r.choice(p.get("dbinds", ("fn", "fn", "inst1", "inst1", "inst2", "static")))}}
+        d = {"fn": g, "key": r.randint(1, p["nkeys"]), "spell": r.randint(0, 5),
+             "bind": r.choice(p.get("dbinds", ("fn", "fn", "inst1", "inst1", "inst2", "static")))}
+        segs = json.loads(json.dumps(self.dfn_bodies[g]))
+        if p.get("p_dself") and r.random() < p["p_dself"] and self.next + 1 <= self.N:
+            # the body first calls, synchronously, a helper that calls the same deduplicated function with the same key
+            # (a call from inside the running body); the re-entered execution does not recurse further
+            h, u2 = self.alloc(), self.alloc()
+            self.sync_targets.update((h, u2))
+            self.predefined[u2] = {"segs": json.loads(json.dumps(self.dfn_bodies[g])), "dedup": dict(d, spell=r.randint(0, 5))}
+            self.predefined[h] = {"segs": [seg([], term("yield", S("D", u2))), seg([], term("return"))]}
+            self.dedup_inst.append(u2)
+            segs[0]["ops"] = [op("sync", h)] + segs[0]["ops"]
+        return {"segs": segs, "dedup": d}
 
     def struct(self, t, yielded_before, depth):
         r, p = self.r, self.p
@@ -425,7 +437,7 @@ def chain(depth, variant="plain"):
     return program(tasks)
 
 
-def enum_dedup(max_len=3, bodies=(1, 2), nactors=2, bind="fn"):
+def enum_dedup(max_len=3, bodies=(1, 2), nactors=2, bind="fn", key=1, spell0=0):
     """Complete family for C12: the root yields [D(first call), actor_1, ..., actor_n]; every actor is a sequence of
     <= max_len steps over {W: wait one flush round, C: call the deduplicated function, X: dirty() then call};
     the deduplicated body waits for 1 or 2 flush rounds.  One function, one key, one batch kind."""
@@ -440,7 +452,7 @@ def enum_dedup(max_len=3, bodies=(1, 2), nactors=2, bind="fn"):
             insts = []
 
             def new_inst():
-                tasks.append({"segs": json.loads(json.dumps(body)), "dedup": {"fn": 1, "key": 1, "spell": len(insts) % 4, "bind": bind}})
+                tasks.append({"segs": json.loads(json.dumps(body)), "dedup": {"fn": 1, "key": key, "spell": (spell0 + len(insts)) % 6, "bind": bind}})
                 insts.append(len(tasks))
                 return len(tasks)
 
